@@ -1273,6 +1273,7 @@ int32 matrixRegisterSession(ssl_t *ssl)
     g_sessionTable[i].minVer = psEncodeVersionMin(GET_NGTD_VER(ssl));
 
     g_sessionTable[i].extendedMasterSecret = ssl->extFlags.extended_master_secret;
+    ssl->bFlags |= BFLAG_SESSION_TABLE_REF;
 
     psUnlockMutex(&g_sessionTableLock);
     return i;
@@ -1287,6 +1288,12 @@ int32 matrixRegisterSession(ssl_t *ssl)
  */
 static int32 connHoldsCacheEntry(const ssl_t *ssl)
 {
+    if (!(ssl->bFlags & BFLAG_SESSION_TABLE_REF))
+    {
+        /* Neither registered nor resumed: ssl->sessionId, if any, is what
+           the ClientHello being parsed carried. */
+        return 0;
+    }
 #  ifdef USE_STATELESS_SESSION_TICKETS
     if (ssl->sid != NULL &&
         ssl->sid->sessionTicketState == SESS_TICKET_STATE_USING_TICKET)
@@ -1336,6 +1343,7 @@ int32 matrixClearSession(ssl_t *ssl, int32 remove)
     }
     psLockMutex(&g_sessionTableLock);
     g_sessionTable[i].inUse -= 1;
+    ssl->bFlags &= ~BFLAG_SESSION_TABLE_REF;
     if (g_sessionTable[i].inUse == 0)
     {
         DLListInsertTail(&g_sessionChronList, &g_sessionTable[i].chronList);
@@ -1437,6 +1445,7 @@ int32 matrixResumeSession(ssl_t *ssl)
         SSL_HS_MASTER_SIZE);
     ssl->cipher = g_sessionTable[i].cipher;
     g_sessionTable[i].inUse += 1;
+    ssl->bFlags |= BFLAG_SESSION_TABLE_REF;
     if (g_sessionTable[i].inUse == 1)
     {
         DLListRemove(&g_sessionTable[i].chronList);
@@ -1482,6 +1491,10 @@ int32 matrixUpdateSession(ssl_t *ssl)
  */
     psLockMutex(&g_sessionTableLock);
     g_sessionTable[i].inUse += ssl->flags & SSL_FLAGS_CLOSED ? -1 : 0;
+    if (ssl->flags & SSL_FLAGS_CLOSED)
+    {
+        ssl->bFlags &= ~BFLAG_SESSION_TABLE_REF;
+    }
     if (g_sessionTable[i].inUse == 0)
     {
         /* End of the line */
